@@ -81,7 +81,12 @@ class Impl:
                 raise
             return ["err", outcome_class(e), any(x[0] == "ph" for x in log)]
         d = object.__getattribute__(o, "__dict__")
-        enc = [[G.IDS[n], G.encode_obj(v, self.ns)] for n, v in d.items()]
+        try:
+            enc = [[G.IDS[n], G.encode_obj(v, self.ns)] for n, v in d.items()]
+        except (ValueError, KeyError):
+            # the instance holds something outside the value grammar (e.g. the MISSING sentinel):
+            # reported as an outcome no specification accepts
+            return ["err", "UserErr", any(x[0] == "ph" for x in log)]
         return ["ok", enc, [x[1] for x in log if x[0] == "post"], [x[1] for x in log if x[0] == "hand"],
                 any(x[0] == "ph" for x in log)]
 
@@ -144,8 +149,17 @@ def make_calls(rng, case_table, hier, c, limit, ncand):
     meta = next(t for t in case_table if t["cls"] == m)
     attrs = [(a["name"], a["ty"]) for a in meta["attrs"]]
     cands = G.candidate_keywords(rng, attrs, meta["ovf"], ncand)
-    calls = [(None, sub) for sub in G.subsets(cands, limit)]
     key = meta["key"]
+    base = []
+    if key is not None and rng.random() < 0.7:
+        spec = next((a for a in meta["attrs"] if a["name"] == key), None)
+        if spec is not None and spec["dflt"][0] == "none":
+            # a required key: most hierarchies get it in every call (other subsets all fail alike)
+            base = [[key, G.conforming(rng, spec["ty"])]]
+            cands = [p for p in cands if p[0] != key]
+    calls = [(None, base + sub) for sub in G.subsets(cands, limit - len(base))]
+    if base:
+        calls += [(None, sub) for sub in G.subsets(cands, 1)]
     extra = []
     if key is not None:
         kt = dict(attrs).get(key, "any")
@@ -201,9 +215,15 @@ def gen_cases(rng, tier, budget_s):
     return cases, labels, undefined
 
 
+SCOPE = {}
+
+
 def evaluate(cases, tag="c", shard=60):
-    return coq_eval("C09", PRELUDE, "check_case", [case_coq(c) for c in cases], shard=shard, tag=tag,
-                    case_type="case")
+    """(failures [(index, code)], logs); SCOPE[tag] = calls per case inside the theorem's hypotheses"""
+    res, logs = coq_eval("C09", PRELUDE, "check_case_sc", [case_coq(c) for c in cases], shard=shard, tag=tag,
+                         case_type="case")
+    SCOPE[tag] = {i: v % 1000 for i, v in res}
+    return [(i, v // 1000) for i, v in res if v >= 1000], logs
 
 
 def reobserve(case, calls=None):
@@ -267,7 +287,7 @@ def hier_variants(case):
     return out
 
 
-def shrink(case, code):
+def shrink(case, code, deadline=None):
     """minimise to one call and a small hierarchy with the same check code"""
     # 1. a single failing call
     singles = []
@@ -277,7 +297,9 @@ def shrink(case, code):
     bad, _ = evaluate(singles, tag="s")
     hit = [i for i, c in bad if c == code]
     cur = singles[min(hit)] if hit else case
-    for _ in range(25):
+    for _ in range(16):
+        if deadline is not None and time.time() > deadline:
+            break
         cands = []
         for h2 in hier_variants(cur):
             c2 = observe(h2, cur["cls"], [(p, kw) for p, kw, _ in cur["calls"]])
@@ -402,10 +424,13 @@ def main(tier, replay=None):
     bad, logs = evaluate(cases)
     t_eval = time.time() - t0 - t_gen
     reported = {}
+    deadline = time.time() + (240 if tier == "quick" else 900)
+    tried = 0
     for i, code in sorted(bad, key=lambda b: (-b[1], len(json.dumps(cases[b[0]]["hier"])))):
-        if len(reported) >= 12:
+        if len(reported) >= 8 or tried >= 20:
             break
-        small = shrink(cases[i], code)
+        tried += 1
+        small = shrink(cases[i], code, deadline)
         feat = features(small)
         sig = dict(feat, code=code)
         key = json.dumps({k: v for k, v in sig.items() if k not in ("keywords", "classes")}, sort_keys=True)
@@ -455,6 +480,8 @@ def main(tier, replay=None):
                            "feature_histogram": feat_hist, "keywords_per_call": kw_hist,
                            "declaration_forms": forms,
                            "generation_s": round(t_gen, 1), "coq_eval_s": round(t_eval, 1),
+                           "calls_inside_theorem_hypotheses": sum(SCOPE.get("c", {}).values()),
+                           "hierarchies_with_calls_inside_theorem": len([1 for v in SCOPE.get("c", {}).values() if v]),
                            "compared": "cls.__spec_class__ of every spec class (attribute order, type, default kind and value, "
                                        "init, owner, do_not_copy, preparer, key, overflow); per call the instance __dict__ in order, "
                                        "error class, __post_init__ and hand-written constructor call records"},
